@@ -274,6 +274,25 @@ func (h *History) CheckC12(res *Result) []Violation {
 		}
 	}
 	stoppedGracefully := strings.HasPrefix(term.Info, "UserStopped") || strings.HasPrefix(term.Info, "SystemStopped")
+	// The run had already ended by itself when the force stop was issued (its cleanup had begun
+	// to write the follow-up status): the stop hits the dead run of the recovery window. Keyed
+	// separately (the default engine's documented recovery-window gap).
+	endedBefore := false
+	for i := call.CallIdx - 1; i >= 0; i-- {
+		e := h.Events[i]
+		if e.Kind == EvStatus {
+			break
+		}
+		if e.Kind == EvStatusBegin && !strings.HasPrefix(e.Info, "Running") {
+			endedBefore = true
+			break
+		}
+	}
+	if endedBefore && !strings.HasPrefix(term.Info, "Degraded") {
+		out = append(out, Violation{Prop: "C12", Key: "C12/force-stop-lost/" + eng + "/run-already-ended", Index: termIdx,
+			Detail: fmt.Sprintf("a force stop accepted while the run's cleanup was already writing its follow-up status is lost: next status %q", term.Info)})
+		return out
+	}
 	if !strings.HasPrefix(term.Info, "Degraded") && !(gracefulBefore && stoppedGracefully) {
 		out = append(out, Violation{Prop: "C12", Key: "C12/not-degraded-after-force-stop/" + eng, Index: termIdx,
 			Detail: fmt.Sprintf("after a successful force stop the next status is %q, expected Degraded", term.Info)})
